@@ -106,6 +106,7 @@ Inductive comp :=
 | KPass
 | KTruncU (agg : bool) (n : nat)
 | KTruncS (agg : bool) (n : nat)
+| KTruncOcc (agg : bool) (n : nat)          (* sorted_by='num_occurrences' *)
 | KPolymorph (poly : hpoly) (poly_vars : list label) (red : list (label * label * label))
              (keep discard : option bool)      (* None = not passed: HigherOrderComposite.sample_poly's default *)
 | KScale (orig : hpoly) (scalar : option Qc) (bias_range : prange) (poly_range : option prange)
@@ -153,6 +154,8 @@ Inductive case :=
          (init : option (option bool * list label * list (list Qc))) (seen : option result)
 (* SimulatedAnnealingSampler's argument tests: ValueError exactly when the model rejects *)
 | CSaCall (num_reads : Z) (beta_range : option (list Qc)) (num_sweeps : Z) (raised : bool)
+(* the same on arguments of any type: accepted / ValueError / TypeError as the model says *)
+| CSaOutcome (num_reads : iarg) (beta_range : barg) (num_sweeps : iarg) (seen : outcome)
 (* what the sample_ising / sample_qubo mixin of a composite handed to its own sample method *)
 | CEntry (n : nat) (qubo : bool) (h : list lterm) (J : list qterm) (observed : poly)
 (* sample_hising(h, J) / sample_hubo(H) / sample_poly: the polynomial the outermost layer received is
@@ -178,6 +181,19 @@ Definition check_comp (k : comp) (child res : result) : bool :=
       list_eqb Nat.eqb (r_labels m) (r_labels res) && qlist_eqb (r_energies m) (r_energies res) &&
       (length (r_rows res) =? length (r_energies res))%nat &&
       sub_multiset (combine (r_energies res) (r_rows res)) (combine (r_energies child) (r_rows child))
+  | KTruncOcc agg n =>
+      (* relational (argsort's order among equal counts is not modelled): n rows (or all), each an
+         (energy, row) pair of the child; after aggregation the kept rows are ones with the n
+         smallest occurrence counts *)
+      let orig := r_rows child in
+      let child := if agg then aggregate child else child in
+      let cnt := fun row => length (filter (row_eqb row) orig) in
+      list_eqb Nat.eqb (r_labels child) (r_labels res) &&
+      (length (r_rows res) =? Nat.min n (length (r_rows child)))%nat &&
+      (length (r_rows res) =? length (r_energies res))%nat &&
+      sub_multiset (combine (r_energies res) (r_rows res)) (combine (r_energies child) (r_rows child)) &&
+      (if agg then nats_eqb (firstn n (sort_nats (map cnt (r_rows child)))) (sort_nats (map cnt (r_rows res)))
+       else true)
   | KPolymorph poly pv red keep discard =>
       let keep := match keep with Some b => b | None => gen_hoc_keep_penalty_variables end in
       let discard := match discard with Some b => b | None => gen_hoc_discard_unsatisfied end in
@@ -319,6 +335,11 @@ Definition check (c : case) : bool :=
       check_parse g num_reads (prob_energy pr) spin vars init seen
   | CSaCall num_reads beta_range num_sweeps raised =>
       Bool.eqb (negb (sa_validate num_reads beta_range num_sweeps)) raised
+  | CSaOutcome num_reads beta_range num_sweeps seen =>
+      match sa_outcome num_reads beta_range num_sweeps, seen with
+      | Accept, Accept | RaiseValueError, RaiseValueError | RaiseTypeError, RaiseTypeError => true
+      | _, _ => false
+      end
   | CEntry n qubo h J observed =>
       poly_coeff_eqb n (if qubo then from_qubo J else ising_poly h J) observed
   | CPostRaw raw vars res =>
